@@ -13,7 +13,7 @@ MAGS = [1.0, 1.0, 1e-30, 1e30, 1e-3, 1e6]
 def gen_layout(rng, allow_cov=True, max_ens=3):
     """shared layout of all members of one structure: [(chain name, idl spec)], cov spec"""
     nens = rng.choice([1, 1, 2, max_ens])
-    ens = rng.sample(["A", "B2", "ens_c", "Dd"], nens)
+    ens = rng.sample(["A", "A2", "B2", "ens_c", "Dd"], nens)     # "A" / "A2": one ensemble name a prefix of another
     chains = []
     for e in ens:
         R = rng.choice([1, 1, 2, 3])
@@ -56,7 +56,7 @@ def gen_struct(rng, depth=0, kinds=("obs", "obs", "list", "array", "corr", "corr
 
 def gen_dict(rng, depth=0):
     d = {}
-    keys = ["a", "b", "obs", 1, 2.5, True, None, "nested", "lst", "c"]
+    keys = ["a", "b", "obs", 3, 2.5, True, None, "nested", "lst", "c"]      # no 1 next to True (equal as dict keys)
     rng.shuffle(keys)
     nk = rng.randint(1, 4)
     for ki, k in enumerate(keys[:nk]):
@@ -149,7 +149,8 @@ def build(s):
 
 def build_dict(d):
     out = {}
-    for k in d.values():
+    for name in sorted(d):                  # plan semantics must not depend on JSON key order (replay files sort keys)
+        k = d[name]
         key, v = k["key"], k["val"]
         if "v" in v:
             out[key] = build(v["v"])
